@@ -52,6 +52,11 @@ TEXTS = ["a", "bb", "", "ccc dd", "some longer words in a cell", "あい", "あ 
          "x  y", "あいうえおかき", "q\n\nr",
          # an over-long double-width word that must be folded, then a short word (len() != cell_len() after the fold)
          "あいうえおかきくけこ ab", "ｗｉｄｅｗｏｒｄｓ go on", "xあいうえおかきy z", "ab あいうえおかきくけこさし c d"]
+# words separated by NON-ASCII whitespace (U+3000 IDEOGRAPHIC SPACE: one character, two cells; U+00A0, U+2003: one cell), zero-width
+# U+200B inside words (not whitespace: it must survive), wide characters that are a one-entry range of the width table (U+2B50, U+2705,
+# U+2B55: boundary cases of the lookup) - wherever len() and cell_len() of the WHITESPACE or of the last character differ
+SPACE_TEXTS = ["你好\u3000世界\u3000再见", "ab\u3000cd\u3000ef", "abc\u00a0def\u00a0gh", "一二\u2003三四\u2003五", "ab\u200bcd ef\u200bgh\u3000i",
+               "ab\u2b50 cd\u2705 \u2b50\u2b50 x", "\u2705\u3000\u2b50\u3000ok\u3000\u2b55", "x\u3000\u3000y\u00a0\u2003z", "\u3000lead 尾\u3000", "好\u3000\u3000\u3000界 a\u3000"]
 # one unbreakable word made of SEVERAL differently styled segments, double-width characters in a non-final one
 MARKUP_WORDS = ["[b]一二三[/b]abcdefgh", "ab[i]한글한글[/i]cd[u]漢字[/u]efghij", "[red]あいうえお[/red]x[b]y[/b]", "pre [b]一二[/b]三四五六 post"]
 WIDE_WORDS = ["あいうえおかきくけこ ab", "ｗｉｄｅｗｏｒｄｓ go on", "ab あいうえおかきくけこさし c d", "averyveryverylongword ab", "あいう"]
@@ -62,6 +67,8 @@ RENDER_OPTS = [{"no_wrap": True}, {"no_wrap": None}, {"no_wrap": True, "overflow
 
 def cell_of(rng, nested=True):
     r = rng.random()
+    if r < 0.08:
+        return ("s", rng.choice(SPACE_TEXTS))
     if r < 0.56:
         return ("s", rng.choice(TEXTS))
     if r < 0.62:
@@ -421,6 +428,26 @@ def table_jobs(ctx):
             kind_specs += [dict(s, avail=w) for w in (range(smin, nat + 3) if not quick else wsq)]
     for i in range(0, len(kind_specs), 70):
         jobs.append((48, FLAGS, kind_specs[i:i + 70]))
+    # ---- A3c: fold columns whose words are separated by non-ASCII whitespace / hold zero-width and range-final wide characters, at EVERY
+    #          available width from the structural minimum to past the natural width (so every break position is hit, in particular
+    #          words exactly filling the column with the wide space overhanging): fold_keeps_characters against the SOURCE text
+    space_specs = []
+    for ti, txt in enumerate(SPACE_TEXTS):
+        for cols, cells in (
+            ([{"header": ("s", ""), "footer": ("s", ""), "overflow": "fold"}], [("s", txt)]),
+            ([{"header": ("s", "h"), "footer": ("s", ""), "overflow": "fold"}, {"header": ("s", txt), "footer": ("s", ""), "overflow": "fold", "justify": "right"}],
+             [("t", txt, None), ("s", SPACE_TEXTS[(ti + 1) % len(SPACE_TEXTS)])]),
+        ):
+            rows = [{"cells": cells, "end_section": False}]
+            for ov in ({"box": None, "padding": (0, 0), "show_header": False}, {"box": "SQUARE"}):
+                if len(cols) == 2 and "show_header" in ov:
+                    ov = dict(ov, show_header=True)
+                s = {"cols": cols, "rows": rows, "opts": dict(ov)}
+                smin = structural_min(s)
+                nat = min(natural_width(s), 46)
+                space_specs += [dict(s, avail=w) for w in range(smin, nat + 2)]
+    for i in range(0, len(space_specs), 70):
+        jobs.append((48, FLAGS, space_specs[i:i + 70]))
     # ---- A4: Column objects handed to the constructor (their `_index` is assigned by Table.__init__), fixed widths, collapsing padding
     #         with left > right (where the first column differs from the others); Table.grid; consoles that substitute the box
     #         (legacy_windows / ascii_only / safe_box); cells whose renderables raise
@@ -677,6 +704,10 @@ MANIFEST = {
     "at width 16 gets widths [10, 8] (18 cells; [10, 6] fits): _collapse_widths knows nothing of min_width, the re-measure puts the floor back "
     "(direct evaluation expand_exact_min_width_column; Lean witness expand_min_width_column_overflows; no small safe repair - one more collapse pass "
     "is not enough with two min_width columns, a floor-aware collapse changes the layout of tables that render correctly today).  "
+    "Round-g miss closed: cell texts whose words are separated by NON-ASCII whitespace (U+3000 - one character, two cells -, U+00A0, U+2003), "
+    "zero-width U+200B inside words and one-entry-range wide characters (U+2B50, U+2705, U+2B55) are now in the random alphabet (SPACE_TEXTS) and in a "
+    "fixed group rendered at EVERY available width (fold_keeps_characters against the SOURCE text); the direct evaluation measures cells by a linear "
+    "scan of rich/_cell_widths.py, not by rich.cells.  "
     "New correspondences: table.add_rows (bounded-exhaustive: 0..3 declared columns x every sequence of <= 2 calls of <= 3 arguments over "
     "{None, object, not renderable} = 6,724, + 1,500 quick / 30,000 thorough random sequences of up to 6 calls of up to 6 arguments, the "
     "half-updated state after NotRenderableError included) and table.styles (~210 quick / ~580 thorough tables: the model's symbolic style of "
